@@ -10,6 +10,9 @@ budget=int(sys.argv[1]); outp=sys.argv[2]; only=sys.argv[3:]
 repo=os.environ.get('CALIB_REPO','/repo')
 c=json.load(open('/verif/checks.json'))
 res=json.load(open(outp)) if os.path.exists(outp) else {}
+PREV={}
+for f in os.environ.get('CALIB_PREV','').split(','):
+    if f and os.path.exists(f): PREV.update(json.load(open(f)))
 def run(pk,h,tier,params,timeout,estimate=0):
     cmd=['/verif/bin/symgo','run','-repo',repo,'-harness-dir',os.environ.get('CALIB_HARNESS','/verif/harness'),'-pkgs',pk,'-tier',tier,'-timeout','%ds'%timeout,'-h',h]
     if params: cmd+=['-params',','.join('%s=%d'%kv for kv in sorted(params.items()))]
@@ -53,9 +56,26 @@ for pid in sorted(c):
         st0,p0,w0,_,_=run(pk,h,'thorough',dict(q),4*budget)
         RATE[h]=max(p0,1)/max(w0,0.5)
         log.append(('quick-real',st0,p0,w0))
+        prev=PREV.get(h)
+        if prev and prev.get('status')=='ok' and prev.get('params') is not None and set(prev['params'])==set(q):
+            # continue from an earlier calibration (smaller budget)
+            cur=dict(prev['params'])
+            improved=True
+            while improved:
+                improved=False
+                for k in sorted(t):
+                    if t[k]>cur[k]:
+                        cand=dict(cur); cand[k]+=1
+                        et,st=esttime(pk,h,cand); log.append((dict(cand),et,st))
+                        if et is not None and et<=budget:
+                            cur=cand; improved=True
+            et=None
+        else:
+            et,st=esttime(pk,h,dict(t)); log.append(('coded',et,st))
         # decreasing parameters (compensations coded for the thorough tier) stay at their quick value
-        et,st=esttime(pk,h,dict(t)); log.append(('coded',et,st))
-        if et is not None and et<=budget:
+        if prev and et is None:
+            pass
+        elif et is not None and et<=budget:
             cur=dict(t)
             for k in t:
                 if t[k]<q[k]: cur[k]=q[k]      # keep the richer quick value if affordable
@@ -79,7 +99,7 @@ for pid in sorted(c):
                 for k in sorted(t):
                     hi=max(q[k],t[k])
                     if hi<=1 or k in ('conds','forms','strmin','str','nil','rich','trees','allopts','extras','wild'): continue
-                    if cur[k]>=hi+2 or cur[k]<hi: continue
+                    if cur[k]>=hi+int(os.environ.get('CALIB_BEYOND','2')) or cur[k]<hi: continue
                     cand=dict(cur); cand[k]+=1
                     et,st=esttime(pk,h,cand); log.append((dict(cand),et,st))
                     if et is not None and et<=budget:
